@@ -75,6 +75,9 @@ C09_DISP = [
     H("c09::proofs::c09_nest_consumer_inside_delivery_dispatcher", T, timeout=2400,
       what="as c09_nest_consumer_inside_delivery, through the real dispatcher", bounds="NEST depth 1, 1 nested consumer iteration"),
 ]
+C09_FRONT = H("c09::proofs::c09_nest_delivery_inside_wait_frontend", Q, also=["C10"], timeout=2400,
+      what="the same with the real front-end object: the consumer is SignalsInfo::wait() itself (Signals::new, handle), a complete delivery nested at every system call / slot access of it, then a later delivery",
+      bounds="NEST depth 1, 1 nested delivery + 1 earlier delivery or stale wake-up byte + 1 later delivery")
 C09_NEST = [
     H("c09::proofs::c09_nest_delivery_inside_consumer", Q, also=["C10"], timeout=2400,
       what="a complete delivery (the exfiltrating action add_signal registered, invoked directly) nested at every system call / slot access of one consumer iteration (read, drain, scan); next iteration must not sleep with the signal unreported",
@@ -155,7 +158,7 @@ CATALOGUE = {
             C08H("c08_q_recv_in_recv", "recv() interrupted by a complete recv (second consumer), 2 values queued"),
             C08H("c08_q_recv_in_send_full", "send() on a full channel interrupted by a recv that frees a slot"),
             C08H("c08_q_send_in_recv_full", "recv() on a full channel interrupted by a send (which finds no slot, or the one recv has just freed)", T)] + C08_ENUM,
-    "C09": C09_NEST + C09_DISP + [H("c09::proofs::c10_seq_counts_signal_only", T, also=["C10"], timeout=2400, what="sequential histories of deliveries and pending() batches", bounds="3 steps")],
+    "C09": C09_NEST + [C09_FRONT] + C09_DISP + [H("c09::proofs::c10_seq_counts_signal_only", T, also=["C10"], timeout=2400, what="sequential histories of deliveries and pending() batches", bounds="3 steps")],
     "C10": [H("c09::proofs::c10_seq_counts_signal_only", Q, also=["C09"], timeout=2400, what="histories of deliveries and pending() batches (SignalOnly): a burst collapses to one report, nothing reported twice, yields <= deliveries", bounds="3 deliveries, 3 batches"),
             H("c09::proofs::c10_seq_raw_records_burst7", Q, also=["C09"], timeout=2400, what="WithRawSiginfo end to end (real dispatcher, exfiltrator, channel): 7 deliveries with symbolic payloads in one burst (buffer holds 5), an unwatched signal in between: every record is a faithful copy of one delivery, in delivery order, at most one per delivery, none twice", bounds="7 deliveries; si_code and 8 payload bytes symbolic per delivery; batch points concrete"),
             H("c09::proofs::c10_seq_raw_records_3_4", Q, also=["C09"], timeout=2400, what="same, a batch after 3 deliveries and one after 4 more", bounds="as above"),
@@ -169,6 +172,7 @@ CATALOGUE = {
         H("c13::proofs::c13_q_wake_pipe", Q, what="pipe.rs on a pipe at any fill level: register, one delivery, unregister, delivery", bounds="capacity 3, burst 1"),
         H("c13::proofs::c13_q_wake_stream", Q, what="same on a stream socket", bounds="capacity 3, burst 1"),
         H("c13::proofs::c13_q_wake_dgram", Q, what="same on a datagram socket", bounds="capacity 3, burst 1"),
+        H("c13::proofs::c13_q_wake_regular_file", Q, what="same on a regular file", bounds="burst 1"),
         H("c13::proofs::c13_wake_pipe", T, timeout=3000, what="pipe.rs on a pipe at any fill level: register, burst of 1..2 deliveries, unregister, delivery", bounds="capacity 3, burst<=2"),
         H("c13::proofs::c13_wake_stream", T, timeout=3000, what="same on a stream socket", bounds="capacity 3, burst<=2"),
         H("c13::proofs::c13_wake_dgram", T, what="same on a datagram socket", bounds="capacity 3 datagrams, burst<=2"),
@@ -182,6 +186,7 @@ CATALOGUE = {
     "C15": [
         H("c15::proofs::c15_flags_hold_value", Q, what="flag::register / register_usize through the real dispatcher, application writes in between", bounds="any bool/usize values, 2 deliveries"),
         H("c15::proofs::c15_conditional_shutdown", Q, what="conditional shutdown + arming flag, both registration orders, any status (c_int), every arm/disarm/deliver history", bounds="history length 3"),
+        H("c15::proofs::c15_conditional_shutdown_len6", T, timeout=2400, what="same, histories of length 6", bounds="history length 6"),
     ],
     "C16": [
         H("c16::proofs::c16_emulate_default_all_signals", Q, what="emulate_default_handler + signal_name for every c_int, from normal context and from the signal's own (blocked) handler; oracle = live kernel table", bounds="all 2^32 signal numbers x 2 contexts"),
